@@ -503,6 +503,32 @@ DoItems(ps, items, ts) ==
 DoPrintf(ps, f, ts) == DoItems(EnterPrint(ps), ParseFormat(f, ArgInfo(ts)), ts)
 
 ---------------------------------------------------------------------------
+\* builder/builder.go: StringBuilder = Buffer + one SetMode before each call; Print/Printf write the
+\* FINISHED output of a separate Fprint/Fprintf in PreRedactable mode.  The state record is a ps
+\* (only bs, rt, calls, exc are used) so that renderings are numbered like everywhere else.
+SBNested(ps) == [NewPS EXCEPT !.rt = ps.rt, !.calls = ps.calls]
+SBWriteOut(ps, r) ==      \* b.SetMode(PreRedactable); Fprint(&b.Buffer, ...) -> one Write of the whole text
+  LET s == SetMode(ps, MR) IN
+  IF Exc(r) THEN [s EXCEPT !.exc = r.exc, !.rt = r.rt, !.calls = r.calls]
+  ELSE W([s EXCEPT !.rt = r.rt, !.calls = r.calls], BOut(r.bs))
+SBOp(ps, op) ==
+  IF Exc(ps) THEN ps ELSE
+  CASE op.o \in {"SafeString", "SafeBytes"}     -> W(SetMode(ps, MS), op.b)
+    [] op.o = "SafeRune"                          -> WRune(SetMode(ps, MS), op.n)
+    [] op.o = "SafeByte"                          -> WByte(SetMode(ps, MS), op.n)
+    \* SafeInt: SetMode(SafeEscaped); Fprintf(&b.Buffer, "%d", s) -- the digits, written in safe mode
+    [] op.o = "SafeInt"                           -> Rend([SetMode(ps, MS) EXCEPT !.fl = NoFlags], "val", op.ts[1], VD, 0)
+    [] op.o \in {"UnsafeString", "UnsafeBytes", "Write"} -> W(SetMode(ps, MU), op.b)
+    [] op.o = "UnsafeRune"                        -> WRune(SetMode(ps, MU), op.n)
+    [] op.o = "UnsafeByte"                        -> WByte(SetMode(ps, MU), op.n)
+    [] op.o = "Print"                             -> SBWriteOut(ps, DoPrint(SBNested(ps), op.ts))
+    [] op.o = "Printf"                            -> SBWriteOut(ps, DoPrintf(SBNested(ps), op.f, op.ts))
+    [] op.o = "Panic"                             -> [ps EXCEPT !.exc = op.ts]
+RECURSIVE SBRunOps(_, _)
+SBRunOps(ps, ops) == IF ops = <<>> THEN ps ELSE SBRunOps(SBOp(ps, Head(ops)), Tail(ops))
+SBRun(ops) == SBRunOps(NewPS, ops)
+
+---------------------------------------------------------------------------
 \* entry points: the final printer state; Out is what the caller gets (none if the panic propagated)
 Sprintf(f, ts)   == DoPrintf(NewPS, f, ts)
 Sprint(ts)       == DoPrint(NewPS, ts)
